@@ -590,4 +590,42 @@ theorem qr_roundtrip_byte_eci (T : Tables) (hT : TablesConform T) (hint : Hint) 
     rw [this]
     exact parse_byte_eci_stream T.eci v hint val hval e hl bs hb (by rw [← hk]; exact hcount) tail ht
 
+/-! ### non-vacuity of the composed theorems -/
+
+/-- the table hypothesis is satisfiable: the standard's tables as a `Tables` value
+    (and the regenerated tables: `Obligations.C01.tables_conform`) -/
+example : TablesConform refTables := refTables_conform
+
+/-- ISO/IEC 18004 Annex I: "01234567", version 1-M — the data codewords of the reference construction are those
+    of the standard's worked example … -/
+example : QRRef.dataCodewordsOf 1 .M (QRRef.headerBits none false .numeric) .numeric 8
+    (QRRef.packNumeric [0, 1, 2, 3, 4, 5, 6, 7]) =
+    [0x10, 0x20, 0x0C, 0x56, 0x61, 0x80, 0xEC, 0x11, 0xEC, 0x11, 0xEC, 0x11, 0xEC, 0x11, 0xEC, 0x11] := by decide
+
+/-- … and the symbol (mask 011) decodes to the digits: a concrete instance of every hypothesis of
+    `qr_roundtrip_numeric` (evaluated by the kernel end to end in Proofs/QRCompExamples.lean) -/
+example : decode refTables rsQR .none (refSymbol 1 .M 3
+      (QRRef.payloadBits 1 (QRRef.headerBits none false .numeric) .numeric 8 (QRRef.packNumeric [0, 1, 2, 3, 4, 5, 6, 7]))) =
+    .ok ⟨⟨[.raw ([0, 1, 2, 3, 4, 5, 6, 7].map (48 + ·))], [], -1, -1, 1⟩, .M, 1,
+      QRRef.dataCodewordsOf 1 .M (QRRef.headerBits none false .numeric) .numeric 8
+        (QRRef.packNumeric [0, 1, 2, 3, 4, 5, 6, 7]), false⟩ :=
+  qr_roundtrip_numeric refTables refTables_conform .none 1 (by decide) (by decide) .M 3 (by decide)
+    [0, 1, 2, 3, 4, 5, 6, 7] (by decide) (by decide)
+
+/-- a version 7 symbol (45x45, carries both copies of the version information; 2 + 4 blocks at level Q),
+    alphanumeric "HR:", mask 101 -/
+example : decode refTables rsQR .none (refSymbol 7 .Q 5
+      (QRRef.payloadBits 7 (QRRef.headerBits none false .alnum) .alnum 3 (QRRef.packAlnum [17, 27, 44]))) =
+    .ok ⟨⟨[.raw ([17, 27, 44].map alnumCharOf)], [], -1, -1, 1⟩, .Q, 7,
+      QRRef.dataCodewordsOf 7 .Q (QRRef.headerBits none false .alnum) .alnum 3 (QRRef.packAlnum [17, 27, 44]), false⟩ :=
+  qr_roundtrip_alnum refTables refTables_conform .none 7 (by decide) (by decide) .Q 5 (by decide)
+    [17, 27, 44] (by decide) (by decide)
+
+example : ([17, 27, 44].map alnumCharOf, QRRef.blockGroups 7 .Q, QRRef.versionWord 7) =
+    ([72, 82, 58], [(2, 14), (4, 15)], 0x07C94) := by decide
+
+/-- version 40-L, byte mode, 2953 bytes (the published capacity): fits, hence round-trips -/
+example : QRRef.fitsBits 40 .L .byte (QRRef.headerBits none false .byte).length (8 * 2953) = true ∧
+    QRRef.fitsBits 40 .L .byte (QRRef.headerBits none false .byte).length (8 * 2954) = false := by decide
+
 end Gzx.Properties.C01
